@@ -760,6 +760,29 @@ func init() {
 		}
 		return mkTime(fr, binop(fr.i.eng, token.ADD, types.Typ[types.Int64], timeSec(args[0]), int64(d)*86400))
 	}
+	// calendar functions: concrete times only (real Go semantics, UTC)
+	conc := func(fr *frame, v value, what string) time.Time {
+		s, ok := timeSec(v).(int64)
+		if !ok {
+			panic(pathAbort{"calendar function time." + what + " on a symbolic time (called from " + chainOf(fr.caller, 2) + ")"})
+		}
+		return time.Unix(s, 0).UTC()
+	}
+	x["(time.Time).Date"] = func(fr *frame, args []value) value {
+		y, m, d := conc(fr, args[0], "Date").Date()
+		return tuple{y, int(m), d}
+	}
+	x["(time.Time).Year"] = func(fr *frame, args []value) value { return conc(fr, args[0], "Year").Year() }
+	x["(time.Time).Month"] = func(fr *frame, args []value) value { return int(conc(fr, args[0], "Month").Month()) }
+	x["(time.Time).Day"] = func(fr *frame, args []value) value { return conc(fr, args[0], "Day").Day() }
+	x["(time.Time).Hour"] = func(fr *frame, args []value) value { return conc(fr, args[0], "Hour").Hour() }
+	x["(time.Time).YearDay"] = func(fr *frame, args []value) value { return conc(fr, args[0], "YearDay").YearDay() }
+	x["(time.Time).Weekday"] = func(fr *frame, args []value) value { return int(conc(fr, args[0], "Weekday").Weekday()) }
+	x["(time.Time).Location"] = func(fr *frame, args []value) value { return (*value)(nil) }
+	x["time.Date"] = func(fr *frame, args []value) value {
+		t := time.Date(args[0].(int), time.Month(args[1].(int)), args[2].(int), args[3].(int), args[4].(int), args[5].(int), args[6].(int), time.UTC)
+		return mkTime(fr, t.Unix())
+	}
 	x["(time.Time).String"] = func(fr *frame, args []value) value { return "<time>" }
 	x["(time.Duration).Seconds"] = func(fr *frame, args []value) value {
 		d, ok := args[0].(int64)
